@@ -393,8 +393,110 @@ def _worker(a):
     return res
 
 
+def _queued_worker(a):
+    """Input that is already queued when the reload happens.  The daemon is stopped (SIGSTOP), the file is edited, SIGUSR1 is sent
+    and a stream of short client sessions is written to its input; then it continues.  Its output is one stream: every verdict
+    written before the guarded reload marker must follow the old rules, every verdict written after it the new ones."""
+    import signal
+    import classmodel
+    b, seed = a["build"], a["seed"]
+    rng = random.Random(seed)
+    res = {"viol": [], "stats": {"queued_runs": 1, "queued_verdicts_before_marker": 0, "queued_verdicts_after_marker": 0, "queued_verdicts_that_tell_old_from_new": 0}, "inconc": [],
+           "hash": vcommon.h(["q", seed]), "nontrivial": False}
+    for _ in range(20):
+        old = [r for r in c11.gen_rules(rng)]
+        for r in old:
+            r.pop("xreply_ok", None)
+            r.pop("account", None)
+        new = c11.edit_rules(rng, old)
+        if rng.random() < 0.6:
+            # the edit an administrator makes most: one rule's address, in place
+            real = [r for r in new if "_plain" not in r]
+            if real:
+                r = rng.choice(real)
+                r["address"] = rng.choice([x for x in c11.ADDR_PATS if x != r.get("address")])
+        for r in new:
+            r.pop("xreply_ok", None)
+            r.pop("account", None)
+        if old != new:
+            break
+    cfg_old = proto.Config([], timeout=3600, rules=old, use_class=True)
+    cfg_new = proto.Config([], timeout=3600, rules=new, use_class=True)
+    clients = {}
+    blob = []
+    for k in range(a["nclients"]):
+        cid = 100 + k
+        ip = rng.choice(c11.IPS)
+        ident = rng.choice([x for x in c11.IDENTS if x])
+        host = rng.choice([x for x in c11.HOSTS if x])
+        clients[cid] = {"account": None, "addr": c11._addr_value(ip), "ident": ident, "hostname": host, "ok_services": set(), "cli_username": "u"}
+        lines = ["%d C %s %d 10.0.0.1 6667" % (cid, ip, 1000 + k), "%d N %s" % (cid, host), "%d u %s" % (cid, ident), "%d n n%d" % (cid, k), "%d U u x x :r" % cid, "%d H cl" % cid]
+        blob += lines
+        for _ in range(rng.choice([0, 1, 3, 8])):
+            blob.append("%d %s %s" % (rng.choice([4242, 31337]), rng.choice("NunPH"), "f" * rng.choice([10, 60, 200])))
+    data = ("\n".join(blob) + "\n").encode("latin-1")
+    d = daemon.Daemon(b, cfg_old.text(b["moddir"]), leaks=True, hooks=True, watchdog=60.0)
+    try:
+        d.start()
+        d.p.send_signal(signal.SIGSTOP)
+        with open(d.conf_path, "w", encoding="latin-1") as f:
+            f.write(cfg_new.text(b["moddir"]))
+        d.p.send_signal(signal.SIGUSR1)
+        pre = rng.choice([0, 0, 1, 2])      # some of the stream may be read before the signal is seen; the oracle does not care which
+        d._write(data[:60000])
+        d.p.send_signal(signal.SIGCONT)
+        if len(data) > 60000:
+            d._write(data[60000:])
+        r_ = d.finish()
+        out = r_.tail
+    except (daemon.Died, daemon.Hang):
+        d.kill()
+        res["inconc"].append("daemon died / hung in a queued-input run")
+        return res
+    if not r_.clean():
+        res["inconc"].append("daemon unclean in a queued-input run (%s); see C08" % (r_.describe(),))
+        return res
+    if "#verif reload" not in out:
+        res["inconc"].append("no reload marker in a queued-input run")
+        return res
+    mark = out.index("#verif reload")
+    for idx, ln in enumerate(out):
+        m = re.match(r"^D (\d+) \S+ \d+(?: (\S+))?$", ln)
+        if not m or int(m.group(1)) not in clients:
+            continue
+        cid = int(m.group(1))
+        after = idx > mark
+        want_old = classmodel.evaluate(old, clients[cid])[0]
+        want_new = classmodel.evaluate(new, clients[cid])[0]
+        res["stats"]["queued_verdicts_after_marker" if after else "queued_verdicts_before_marker"] += 1
+        if want_old != want_new:
+            res["stats"]["queued_verdicts_that_tell_old_from_new"] += 1
+            res["nontrivial"] = True
+        want = want_new if after else want_old
+        want = want[:62] if want else want      # the class field of a request holds 62 characters
+        if m.group(2) != want and not res["viol"]:
+            res["viol"].append(("C17", "queued-input", "queued-input:%s" % ("after-reload" if after else "before-reload"),
+                                "client %d's verdict %r was written %s the reload had finished (marker at output line %d, verdict at line %d) and must follow the %s rules: class %r expected\n"
+                                "old rules: %s\nnew rules: %s\noutput around the marker: %s" % (
+                                    cid, ln, "after" if after else "before", mark, idx, "new" if after else "old", want, old, new, out[max(0, mark - 3):mark + 6]),
+                                {"seed": seed, "queued": True, "nclients": a["nclients"]}))
+    res["sample"] = {"queued_input_head": blob[:8], "old_rules": old, "new_rules": new, "marker_at_output_line": mark}
+    return res
+
+
 def run(chk, tier, scale=1.0):
     b = prun.build_daemon("c17-" + tier)
+    qjobs = [dict(build=b, seed=random.Random("c17q/%d/%d" % (chk.seed, i)).randrange(1 << 30), nclients=60) for i in range(int((40 if tier == "quick" else 800) * scale) or 1)]
+    for r in vcommon.pmap(_queued_worker, qjobs):
+        chk.add_case(r["hash"], r["nontrivial"])
+        if r.get("sample"):
+            chk.sample(r["sample"], limit=1)
+        chk.merge_counts(r["stats"])
+        for w in r["inconc"]:
+            chk.inconc(w)
+        for (p, rule, sig, text, wit) in r["viol"]:
+            chk.violation(Violation(p, rule, sig, text, wit))
+    chk.require("queued_verdicts_after_marker", 200 * min(1.0, scale))
     npairs = int((160 if tier == "quick" else 4000) * scale)
     ntriples = int((48 if tier == "quick" else 1000) * scale)
     jobs = []
@@ -423,7 +525,7 @@ def run(chk, tier, scale=1.0):
     chk.rule = ("(old, new) configuration pairs and (old, mid, new) triples over 5 service names x 4 protocols and random rule tables; edits: add / remove / change-in-place "
                 "a service's protocol, add / remove / rename a rule, change its class, add / remove / change a criterion, alone and combined; daemon A is started on old, serves "
                 "some clients (finished, or abandoned while a service owes an answer), is reloaded by a real SIGUSR1 (completion seen through the guarded marker), then gets 14 "
-                "probe clients and `? config`; plus directed three-step chains (remove then add a service, remove all then add, change and change back, re-add the same name, swap names, rename a rule and back, remove then re-add a rule / criterion); daemon B is started directly on new and gets the same probes; every probe step's output must be equal (serials normalised, S lines "
+                "probe clients and `? config`; plus directed three-step chains (remove then add a service, remove all then add, change and change back, re-add the same name, swap names, rename a rule and back, remove then re-add a rule / criterion); queued-input runs: the daemon is stopped, the rule file edited, SIGUSR1 sent and 60 short client sessions written to its input before it continues - verdicts before the guarded reload marker must follow the old rules, verdicts after it the new ones (reference evaluator); daemon B is started directly on new and gets the same probes; every probe step's output must be equal (serials normalised, S lines "
                 "and unconfigured '-' entries ignored); distinct = seed of the pair; non-trivial = at least one edit applied")
     chk.require("reloads", 150 * min(1.0, scale))
     chk.require("probe_steps_compared", 10000 * min(1.0, scale))
@@ -433,6 +535,11 @@ def run(chk, tier, scale=1.0):
 def replay(chk, rep):
     b = prun.build_daemon("c17-replay")
     w = rep["witness"]
+    if w.get("queued"):
+        r = _queued_worker(dict(build=b, seed=w["seed"], nclients=w["nclients"]))
+        for v in r["viol"]:
+            print(v[3])
+        return 1 if r["viol"] else 0
     r = _worker(dict(build=b, seed=w["seed"], nreloads=w["nreloads"], nprobes=w["nprobes"], npre=w["npre"], directed=w.get("directed")))
     for v in r["viol"]:
         print(v[3])
